@@ -363,7 +363,7 @@ func (c09) Exec(h []Ev) []Ev {
 					e["has_src"], e["src"] = false, []int{}
 				}
 				c09Fill(e, st)
-				e["g"] = obsSig(s)
+				e["g"] = obsSigO(e, s)
 				e["data_before"] = B(s.Data())
 				b := append([]byte(nil), s.UpdateData()...)
 				e["bytes"] = B(b)
@@ -373,7 +373,7 @@ func (c09) Exec(h []Ev) []Ev {
 				s2, err := scte35.NewSCTE35(append([]byte{0}, b...))
 				e["err2"] = c08Err(err)
 				if err == nil {
-					e["g2"] = obsSig(s2)
+					e["g2"] = obsSigO(e, s2)
 				}
 			case "set":
 				e["seg_index"] = -1
